@@ -54,6 +54,7 @@ type S struct {
 	drop      func(host string)
 	finished  bool
 	plans     map[int32]string
+	replyAt   map[int32]time.Duration // when the peer wrote (or will write) the first real response of a request
 }
 
 // registrar is the registry of the registry mode.
@@ -88,6 +89,7 @@ func (s *S) Run(c *scen.Ctx) {
 	simnet.Cfg.Delay = simrt.Draw(2, "c08.delay") == 1
 	s.timeoutMs = []int{3000, 300, 1000}[simrt.Draw(3, "c08.timeout")]
 	s.plans = map[int32]string{}
+	s.replyAt = map[int32]time.Duration{}
 	s.registry = simrt.Draw(4, "c08.registry") == 3
 	var comm *tars.Communicator
 	obj := "App.Srv.Obj@tcp -h 10.0.0.9 -p 1000 -t 3000"
@@ -209,9 +211,13 @@ func (s *S) Run(c *scen.Ctx) {
 func (s *S) onRequest(c *scen.Ctx, sc *world.SrvConn, req *refcodec.Request) {
 	rsp := world.Echo(req)
 	to := time.Duration(s.timeoutMs) * time.Millisecond
-	plan := simrt.Draw(10, "c08.plan")
+	plan := simrt.Draw(11, "c08.plan")
 	name := ""
+	first := time.Duration(-1)
 	send := func(r *refcodec.Response, d time.Duration) {
+		if r.RequestID == req.RequestID && (first < 0 || d < first) {
+			first = d
+		}
 		if d == 0 {
 			sc.Reply(r)
 			return
@@ -245,6 +251,13 @@ func (s *S) onRequest(c *scen.Ctx, sc *world.SrvConn, req *refcodec.Request) {
 		push := &refcodec.Response{Version: 1, RequestID: 0, Buffer: []byte("pushed"), Status: map[string]string{}, ResultDesc: "hello"}
 		send(push, 0)
 		send(rsp, 0)
+	case 10:
+		// the server announces a graceful stop (id 0, "_reconnect_") while this call and possibly
+		// others are pending on the connection, and answers them on that connection afterwards
+		name = "reconnect-notice-first"
+		c.Count("fault.reconnect_notice_with_calls_pending", 1)
+		send(&refcodec.Response{Version: 1, RequestID: 0, ResultDesc: "_reconnect_", Status: map[string]string{}}, 0)
+		send(rsp, time.Duration(simrt.Draw(150, "c08.d"))*time.Millisecond)
 	case 7:
 		name = "around-deadline"
 		c.Count("fault.response_near_deadline", 1)
@@ -265,6 +278,9 @@ func (s *S) onRequest(c *scen.Ctx, sc *world.SrvConn, req *refcodec.Request) {
 	}
 	s.mu.Lock()
 	s.plans[req.RequestID] = name
+	if first >= 0 {
+		s.replyAt[req.RequestID] = simrt.Elapsed() + first
+	}
 	if s.drop != nil && s.dropped == "" && (plan == 3 || plan >= 7) && simrt.Draw(2, "c08.dropnow") == 1 {
 		s.drop(strings.Split(sc.Srv.Addr, ":")[0])
 	}
@@ -315,6 +331,15 @@ func (s *S) Check(c *scen.Ctx, res *simrt.Result) {
 				c.Count("probe.call_timed_out", 1)
 				if strings.Contains(s.plans[cl.wireID], "immediate") {
 					c.Count("probe.timeout_despite_prompt_reply", 1)
+				}
+				// Without injected stalls nothing in the simulated world is slow. If the peer wrote the
+				// response with this call's id early enough to reach the client (at most 110ms of
+				// simulated delivery delay) well before the caller gave up, the caller must get it:
+				// "or else a timeout error" is for responses that do not arrive in time, not for
+				// ones the client had and dropped.
+				if at, ok := s.replyAt[cl.wireID]; ok && cl.seenOnWire && res.Stalls == 0 && !(s.registry && s.dropped != "") &&
+					at+160*time.Millisecond < cl.t0+time.Duration(s.timeoutMs)*time.Millisecond {
+					c.Fail("C08", "response-dropped", "TarsInvoke", "call %d/%d (id %d, started at %v) ended in a time-out after %v although the peer wrote its response at %v (plan %q) and no goroutine was stalled: %v", cl.caller, cl.k, cl.wireID, cl.t0, cl.t1-cl.t0, at, s.plans[cl.wireID], cl.err)
 				}
 			}
 			continue
